@@ -33,6 +33,7 @@ type ParamDecl struct {
 
 type Contract struct {
 	Func      string
+	extensionOnly bool // created by an 'also' block; the defining 'func' block has not been seen yet
 	Params    []ParamDecl // optional explicit parameter names (externals)
 	Results   []ParamDecl
 	Props     []string
@@ -102,6 +103,7 @@ type Spec struct {
 	AllocInits map[string][]*GhostSet // Go type text -> ghost initialisation at allocation
 	Lemmas    []*Lemma
 	Writers   []*WritersRule
+	Tables    []*TableRule
 	Rules     []*Rule
 	Order     []string
 }
@@ -147,7 +149,7 @@ var keywords = map[string]bool{
 	"lemma": true, "var": true, "hyp": true, "concl": true, "callassert": true, "nocanary": true,
 	"sweep": true, "note": true, "rule": true, "abstract": true, "free": true, "end": true, "thread": true,
 	"allocbound": true, "results": true, "atreturn": true, "guarded": true, "allocinit": true,
-	"writers": true, "functype": true, "partial": true,
+	"writers": true, "functype": true, "partial": true, "also": true, "table": true,
 }
 
 func (sp *Spec) parseFile(path string) error {
@@ -235,6 +237,12 @@ func (sp *Spec) parseFile(path string) error {
 				return err
 			}
 			sp.Writers = append(sp.Writers, w)
+		case "table":
+			t, err := parseTable(rc.text, path, rc.line)
+			if err != nil {
+				return err
+			}
+			sp.Tables = append(sp.Tables, t)
 		case "end":
 			cur, curLemma, curRule = nil, nil, nil
 		case "func", "functype":
@@ -245,10 +253,28 @@ func (sp *Spec) parseFile(path string) error {
 				ftype = name
 				name = "type:" + name
 			}
-			cur = &Contract{Func: name, Params: params, Loops: map[int][]*Clause{}, File: path, Line: rc.line, FuncType: ftype}
-			if _, dup := sp.Contracts[name]; dup {
-				return fmt.Errorf("%s:%d: duplicate contract for %s", path, rc.line, name)
+			if ex, dup := sp.Contracts[name]; dup {
+				if !ex.extensionOnly {
+					return fmt.Errorf("%s:%d: duplicate contract for %s", path, rc.line, name)
+				}
+				// clauses were added by an earlier 'also' block: this is the defining block
+				ex.extensionOnly = false
+				ex.Params, ex.File, ex.Line, ex.FuncType = params, path, rc.line, ftype
+				cur = ex
+				break
 			}
+			cur = &Contract{Func: name, Params: params, Loops: map[int][]*Clause{}, File: path, Line: rc.line, FuncType: ftype}
+			sp.Contracts[name] = cur
+			sp.Order = append(sp.Order, name)
+		case "also":
+			// '//@ also F': further clauses for a function whose contract is defined in another block or file
+			curLemma, curRule = nil, nil
+			name, _ := splitNameParams(rc.text)
+			if ex, ok := sp.Contracts[name]; ok {
+				cur = ex
+				break
+			}
+			cur = &Contract{Func: name, Loops: map[int][]*Clause{}, File: path, Line: rc.line, extensionOnly: true}
 			sp.Contracts[name] = cur
 			sp.Order = append(sp.Order, name)
 		case "results":
